@@ -230,6 +230,11 @@ pub fn corpus(deep: bool) -> Vec<String> {
     for a in props { for o in ops { for b in props { out.push(format!("{a} {o} {b}")); } } }
     let small: Vec<String> = { let mut v = Vec::new(); for a in ["p", "q"] { for o in ["->", "<-", "and", "<->"] { for b in ["p", "q", "r"] { v.push(format!("({a} {o} {b})")); } } } v };
     for a in &small { for o in ops { for b in &small { out.push(format!("{a} {o} {b}")); } } }
+    // long comparison chains: one rewrite makes the formula grow before the others shrink it again
+    for t in ["exists N$i (0 < N$i < M$i < K$i < 10 and N$i = 1)", "forall X (p(X) -> X = X = X = X = X = X)", "X = X = X = X", "1 < 2 < 3 < 4 < 5 and p and p", "exists X (X = Y = Y = Y = Y and p(X))", "0 <= N$i <= N$i <= N$i <= 2 and (p or p)",
+              "not 1 < 2 < 3 < 4 < 5 < 6 < 7", "forall N$i (p(N$i) and 0 < N$i < N$i + 1 < N$i + 2 < 5 -> q(N$i) and #true)", "a = a = a = a = a <-> (p <-> p)", "exists Z (Z = X and 0 <= Z <= Z <= Z <= 1 and p(Z) and #true)"] {
+        out.push(t.to_string());
+    }
     // long formulas: many rewriting passes are needed before the fixpoint strategy stops
     let n = 40;
     out.push((1..=n).map(|i| format!("exists X{i} (p(X{i}))")).collect::<Vec<_>>().join(" and "));
@@ -242,7 +247,7 @@ pub fn corpus(deep: bool) -> Vec<String> {
     out.push((1..=n).fold("p(Y)".to_string(), |acc, i| format!("exists X{i} (p(X{i}) and {acc})")));
     out.push((1..=n).fold("p(Y)".to_string(), |acc, i| format!("forall X{i} (p(X{i}) -> {acc})")));
     out.push((1..=12).fold("q".to_string(), |acc, i| format!("(p(X) and {acc} <- r) and (exists Z{i} (Z{i} = X and q(Z{i})))")));
-    let mut g = Gen { rng: Rng(0x5eed_c07) };
+    let mut g = Gen { rng: Rng(0x5eed_c07 ^ crate::dom::run_seed().wrapping_mul(0x9E3779B97F4A7C15) | 1) };
     let n = if deep { 20000 } else { 1200 };
     for i in 0..n {
         let depth = 1 + (i % 4) as u32;
